@@ -32,6 +32,9 @@ func trimStack(b []byte) string {
 	return string(b)
 }
 
+// absentProbeTerm is in no vocabulary of the harness.
+const absentProbeTerm = "\x01-absent-probe-\x01"
+
 type Facets struct {
 	Postings bool // dictionaries + postings + locations
 	Counts   bool // dictionary entry counts and PostingsList.Count
@@ -176,6 +179,22 @@ func observe(seg segment.Segment, probe []string, fc Facets, lenientStored map[i
 					return nil, fmt.Errorf("postings of %q/%q: %v", f, t, err)
 				}
 				x.Post[f][t] = ps
+			}
+			// a term that is not in the dictionary must be unreachable: no postings, count 0
+			ok, err := dict.Contains([]byte(absentProbeTerm))
+			if err != nil {
+				return nil, err
+			}
+			pl, err := dict.PostingsList([]byte(absentProbeTerm), nil, nil)
+			if err != nil {
+				return nil, fmt.Errorf("PostingsList(%q, absent term): %v", f, err)
+			}
+			ps, err := WalkPostings(pl, true, true, true)
+			if err != nil {
+				return nil, fmt.Errorf("postings of %q/absent term: %v", f, err)
+			}
+			if ok || pl.Count() != 0 || len(ps) != 0 {
+				return nil, fmt.Errorf("absent term probed in field %q: Contains=%v Count=%d postings=%v", f, ok, pl.Count(), ps)
 			}
 		}
 	}
